@@ -129,7 +129,7 @@ pub fn expectation(input: &[u8]) -> Vec<Expected> {
 
 pub fn judge_stream(l: &mut Local, input: &[u8], what: &str) {
     let exp = expectation(input);
-    let res = run_tool(input, Duration::from_secs(20));
+    let res = run_tool(input, Duration::from_secs(120));
     let (code, out, err) = match res {
         Ok(x) => x,
         Err(e) => {
